@@ -137,7 +137,7 @@ func checkFields3(w *W, v *spec.V3, L int, rng *rand.Rand, pairs *atomic.Int64) 
 		var first string
 		for i, s := range []string{s1, s2, s3, s4, s5} {
 			w.Eval(1)
-			o, err, pan := lib.Decode(k, s, false)
+			o, err, pan := lib.DecodeAuto(k, s)
 			if pan != nil || err != nil || o.IsNil() {
 				w.Count("valid_vector_not_decoded")
 				continue
@@ -154,6 +154,10 @@ func checkFields3(w *W, v *spec.V3, L int, rng *rand.Rand, pairs *atomic.Int64) 
 			}
 			if i == 0 {
 				first = ob
+				// the same decoder object used twice: first for another vector (or garbage), then for this one
+				vo := seed3(rng, rng.IntN(D+1))
+				checkReuse3(w, k, render3(&vo, D, rng), s, want, first)
+				checkReuse3(w, k, []string{"garbage", "CVSS:3.1/ZZ:N", s + "/ZZ:N", "CVSS:3.1/E:U/RL:O/RC:U/MS:C/CR:H"}[rng.IntN(4)], s, want, first)
 			} else {
 				pairs.Add(1)
 				if ob != first {
@@ -162,6 +166,22 @@ func checkFields3(w *W, v *spec.V3, L int, rng *rand.Rand, pairs *atomic.Int64) 
 				}
 			}
 		}
+	}
+}
+
+// checkReuse3 records (does NOT judge) what happens when a decoder object that has already been used for
+// `first` is given the complete vector s.  No property speaks about re-using a decoder object: the unchanged
+// library refuses a second complete vector after a successful decode ("exist same metric") and, after a failed
+// one, may accept it with optional metrics left over from the failed attempt.  The counters go into the evidence.
+func checkReuse3(w *W, k lib.Kind, first, s string, want []int, fresh string) {
+	o, ok, pan := lib.DecodeReused(k, first, s)
+	w.Count("reuse_(not_judged):second_decodes_on_a_used_decoder")
+	if pan != nil || !ok {
+		return
+	}
+	w.Count("reuse_(not_judged):accepted")
+	if !sameInts(o.Fields(), want) || fullObs(o) != fresh {
+		w.Count("reuse_(not_judged):accepted_but_observably_different_from_a_fresh_decode")
 	}
 }
 
@@ -182,7 +202,7 @@ func checkFields2(w *W, v *spec.V2) {
 	for D := v.MinLevel(); D <= spec.LEnv; D++ {
 		k := lib.Kind2(D)
 		w.Eval(1)
-		o, err, pan := lib.Decode(k, s, false)
+		o, err, pan := lib.DecodeAuto(k, s)
 		if pan != nil || err != nil || o.IsNil() {
 			w.Count("valid_vector_not_decoded")
 			continue
@@ -246,7 +266,7 @@ func runC09(r *Run) int {
 
 func checkEncode(w *W, k lib.Kind, s, canonical string) {
 	w.Eval(1)
-	o, err, pan := lib.Decode(k, s, false)
+	o, err, pan := lib.DecodeAuto(k, s)
 	if pan != nil || err != nil || o.IsNil() {
 		w.Count("valid_vector_not_decoded")
 		return
@@ -267,7 +287,7 @@ func checkEncode(w *W, k lib.Kind, s, canonical string) {
 	if str != enc {
 		w.Violate(Violation{Monitor: "C10", Check: "String() returns the same text as Encode()", Case: c, Observed: str, Expected: enc})
 	}
-	o2, err2, pan2 := lib.Decode(k, enc, false)
+	o2, err2, pan2 := lib.DecodeAuto(k, enc)
 	if pan2 != nil || err2 != nil || o2.IsNil() {
 		w.Violate(Violation{Monitor: "C10", Check: "the encoding is accepted by the same decoder", Case: c, Observed: lib.ErrClass(err2), Note: "encoding: " + enc})
 		return
@@ -314,7 +334,7 @@ func runC10(r *Run) int {
 		visit := func(w *W, s string, m *strMeta) {
 			for level := 0; level < 3; level++ {
 				k := kindOf(v2, level)
-				o, err, pan := lib.Decode(k, s, false)
+				o, err, pan := lib.DecodeAuto(k, s)
 				if err != nil || pan != nil || o.IsNil() {
 					continue
 				}
@@ -334,7 +354,7 @@ func runC10(r *Run) int {
 						w.Violate(Violation{Monitor: "C10", Check: "Encode() returns the canonical vector", Case: c, Observed: enc, Expected: p.V.Canonical(level)})
 					}
 				}
-				o2, err2, _ := lib.Decode(k, enc, false)
+				o2, err2, _ := lib.DecodeAuto(k, enc)
 				if err2 != nil || o2.IsNil() {
 					w.Violate(Violation{Monitor: "C10", Check: "the encoding of an accepted vector is accepted by the same decoder", Case: c, Observed: lib.ErrClass(err2), Note: "encoding: " + enc})
 				} else if a, b := fullObs(o), fullObs(o2); a != b || !sameInts(o.Fields(), o2.Fields()) {
@@ -390,7 +410,7 @@ func cmpView(w *W, what string, c Case, view lib.Obj, k lib.Kind, proj string) {
 		w.Violate(Violation{Monitor: "C14", Check: what + " is available", Case: c, Observed: "nil"})
 		return
 	}
-	ind, err, pan := lib.Decode(k, proj, false)
+	ind, err, pan := lib.DecodeAuto(k, proj)
 	if pan != nil || err != nil || ind.IsNil() {
 		w.Count("projection_not_decoded")
 		return
@@ -425,14 +445,14 @@ func runC14(r *Run) int {
 		}
 		for D := L; D <= spec.LEnv; D++ {
 			k := lib.Kind3(D)
-			o, err, pan := lib.Decode(k, s, false)
+			o, err, pan := lib.DecodeAuto(k, s)
 			if pan != nil || err != nil || o.IsNil() {
 				w.Count("valid_vector_not_decoded")
 				continue
 			}
 			c := decodeCase(k, s, false)
 			// a twin whose own score/severity/encoding/report are queried BEFORE its views are read
-			if tw, err, _ := lib.Decode(k, s, false); err == nil && !tw.IsNil() {
+			if tw, err, _ := lib.DecodeAuto(k, s); err == nil && !tw.IsNil() {
 				tw.Observe()
 				doOp(tw, 8, 1)
 				tbv, _, _ := tw.BaseView()
@@ -464,6 +484,13 @@ func runC14(r *Run) int {
 					cmpView(w, "TemporalMetrics().BaseMetrics()", c, tb, lib.K3B, proj(spec.LBase))
 				}
 			}
+			// the same vector accepted by an already used decoder (vacuous when the library refuses re-use)
+			if D == L && rng.IntN(4) == 0 {
+				vo := seed3(rng, D)
+				if _, ok, _ := lib.DecodeReused(k, render3(&vo, D, rng), s); ok {
+					w.Count("reuse_(not_judged):second_decode_on_a_used_decoder_accepted")
+				}
+			}
 			// ... and once more after the object itself has been queried
 			o.Observe()
 			cmpView(w, "BaseMetrics() (views read before and after the object was queried)", c, bv, lib.K3B, proj(spec.LBase))
@@ -485,13 +512,13 @@ func runC14(r *Run) int {
 		}
 		for D := lo; D <= spec.LEnv; D++ {
 			k := lib.Kind2(D)
-			o, err, pan := lib.Decode(k, s, false)
+			o, err, pan := lib.DecodeAuto(k, s)
 			if pan != nil || err != nil || o.IsNil() {
 				w.Count("valid_vector_not_decoded")
 				continue
 			}
 			c := decodeCase(k, s, false)
-			if tw, err, _ := lib.Decode(k, s, false); err == nil && !tw.IsNil() {
+			if tw, err, _ := lib.DecodeAuto(k, s); err == nil && !tw.IsNil() {
 				tw.Observe()
 				tbv, _, _ := tw.BaseView()
 				cmpView(w, "BaseMetrics() read after the higher-level object was queried", c, tbv, lib.K2B, v.BaseString())
@@ -545,7 +572,7 @@ func replayValid(r *Run, c Case) {
 			checkEncode(w, k, s, s)
 		case "C14":
 			for pass := 0; pass < 2; pass++ {
-				o, err, _ := lib.Decode(k, s, false)
+				o, err, _ := lib.DecodeAuto(k, s)
 				if err != nil {
 					break
 				}
@@ -579,7 +606,7 @@ func replayValid(r *Run, c Case) {
 		var pairs atomic.Int64
 		checkFields3(w, &p.V, L, rng, &pairs)
 		// and the literal input at its decoder
-		o, err, _ := lib.Decode(k, s, false)
+		o, err, _ := lib.DecodeAuto(k, s)
 		if err == nil && !sameInts(o.Fields(), expectFields3(&p.V, k.Level())) {
 			w.Violate(Violation{Monitor: "C09", Check: "fields", Case: c, Observed: fieldNames3(o.Fields()), Expected: fieldNames3(expectFields3(&p.V, k.Level()))})
 		}
@@ -598,7 +625,7 @@ func replayValid(r *Run, c Case) {
 		}
 		prefix := "CVSS:" + spec.V3Versions[p.V.Ver]
 		for pass := 0; pass < 2; pass++ {
-			o, err, _ := lib.Decode(k, s, false)
+			o, err, _ := lib.DecodeAuto(k, s)
 			if err != nil {
 				break
 			}
@@ -618,6 +645,6 @@ func replayValid(r *Run, c Case) {
 }
 
 func mustDecode(k lib.Kind, s string) lib.Obj {
-	o, _, _ := lib.Decode(k, s, false)
+	o, _, _ := lib.DecodeAuto(k, s)
 	return o
 }
